@@ -184,7 +184,8 @@ class C16(core.Check):
                         "pairs": self._pairs(rng, 0.0, 1.0, 5),
                         "triples": self._triples(rng, 0.0, 1.0, 3),
                         "knot_split": rng.randrange(1, k - 1),
-                        "queries": self._queries(rng, pts, near_only=True),
+                        "queries": self._queries(rng, pts, near_only=(kind == "spline"))
+                        + ([{"near": False, "p": _add(rng.choice(pts), [rng.uniform(-0.3, 0.3) for _ in range(3)])} for _ in range(2)] if kind == "linear" else []),
                         "count": rng.randint(2, 20),
                     }
                 )
@@ -356,6 +357,16 @@ class C16(core.Check):
                     return i
             return -1
 
+        errors: List[str] = []
+        out["errors"] = errors
+
+        def length(a, b):
+            try:
+                return float(curve.get_length(a, b))
+            except Exception as e:  # noqa: BLE001  (valid parameters: every exception is an observation)
+                errors.append(f"get_length({a}, {b}): {type(e).__name__}: {e}"[:160])
+                return float("nan")
+
         for a, b in case["pairs"]:
             if kind == "discrete":
                 disc = curve.discretize(a, b)
@@ -366,17 +377,17 @@ class C16(core.Check):
                 o = {"n": len(disc), "recorded": list(record)}
             o["first"], o["last"] = fl(disc[0]), fl(disc[-1])
             o["pa"], o["pb"] = fl(curve.get_point(a)), fl(curve.get_point(b))
-            o["len"] = float(curve.get_length(a, b))
-            o["len_rev"] = float(curve.get_length(b, a))
+            o["len"] = length(a, b)
+            o["len_rev"] = length(b, a)
             out["pairs"].append(o)
         for a, b, c in case["triples"]:
-            out["triples"].append([float(curve.get_length(a, b)), float(curve.get_length(b, c)), float(curve.get_length(a, c))])
+            out["triples"].append([length(a, b), length(b, c), length(a, c)])
         if kind in ("linear", "spline"):
             knots = [float(t) for t in curve.function.params]
             out["knots"] = knots
             out["through"] = [fl(curve.get_point(t)) for t in knots]
             t = knots[case["knot_split"]]
-            out["knot_split"] = [float(curve.get_length(0, t)), float(curve.get_length(t, 1)), float(curve.get_length(0, 1))]
+            out["knot_split"] = [length(0, t), length(t, 1), length(0, 1)]
             out["full"] = float(curve.length)
         lo, hi = curve.bounds
         if kind == "analytic":
@@ -412,6 +423,8 @@ class C16(core.Check):
             for a, b in case["pairs"]:
                 reqs.append(f"c16.ilen {_vecs(case['points'])} {core.rat(a)} {core.rat(b)} {eps}")
                 reqs.append(f"c16.ipoint {_vecs(case['points'])} {core.rat(a)} {eps}")
+            for q in case["queries"]:
+                reqs.append(f"c16.lclosest {_vecs(case['points'])} {_vec(q['p'])} {eps}")
         elif kind == "analytic" and case["curve"] == "helix":
             for (a, b), o in zip(case["pairs"], impl["pairs"]):
                 reqs.append(f"c16.linspace {core.rat(a)} {core.rat(b)} {case['count']}")
@@ -445,7 +458,7 @@ class C16(core.Check):
                 if not dlen.startswith("ok "):
                     return f"get_length({a}, {b}): model {dlen}"
                 ml = float(core.parse_rat(dlen.split()[1]))
-                if abs(ml - o["len"]) > TOL * sc * 10:
+                if not abs(ml - o["len"]) <= TOL * sc * 10:
                     return f"get_length({a}, {b}): implementation {o['len']}, model {ml}"
             for q, o in zip(case["queries"], impl["queries"]):
                 ans = next(it)
@@ -460,21 +473,31 @@ class C16(core.Check):
                 if not ilen.startswith("ok "):
                     return f"get_length({a}, {b}): model {ilen}"
                 ml = float(core.parse_rat(ilen.split()[1]))
-                if abs(ml - o["len"]) > TOL * sc * 10:
+                if not abs(ml - o["len"]) <= TOL * sc * 10:
                     return f"get_length({a}, {b}): implementation {o['len']}, model {ml}"
-                if abs(ml - o["len_rev"]) > TOL * sc * 10:
+                if not abs(ml - o["len_rev"]) <= TOL * sc * 10:
                     return f"get_length({b}, {a}): implementation {o['len_rev']}, model {ml}"
                 if not ipoint.startswith("ok "):
                     return f"get_point({a}): model {ipoint}"
                 mp = _parse_vec(ipoint.split()[1])
-                if max(abs(x - y) for x, y in zip(mp, o["pa"])) > TOL * sc * 10:
+                if not max(abs(x - y) for x, y in zip(mp, o["pa"])) <= TOL * sc * 10:
                     return f"get_point({a}): implementation {o['pa']}, model {mp}"
+            for q, o in zip(case["queries"], impl["queries"]):
+                ans = next(it).split()
+                if ans[0] != "ok":
+                    return f"get_closest_param({q['p']}): model {ans}"
+                mt, md2 = float(core.parse_rat(ans[2])), float(core.parse_rat(ans[3]))
+                # the parameter is compared through the distance it achieves (ties between segments are legitimate)
+                if not abs(math.sqrt(md2) - o["d"]) <= TOL * sc * 10:
+                    return f"get_closest_param({q['p']}): implementation t={o['t']} at distance {o['d']}, model t={mt} at {math.sqrt(md2)}"
+                if not abs(mt - o["t"]) <= 1e-9 and not abs(math.sqrt(md2) - o["d"]) <= 1e-12 * sc:
+                    return f"get_closest_param({q['p']}): implementation t={o['t']}, model t={mt}"
             return None
         if kind == "analytic" and case["curve"] == "helix":
             for (a, b), o, ans in zip(case["pairs"], impl["pairs"], model):
                 want = [float(core.parse_rat(x)) for x in ans.strip("[]").split(",")]
                 rec = o["recorded"]
-                if len(rec) != len(want) or max(abs(x - y) for x, y in zip(rec, want)) > 1e-12 * max(1.0, abs(a), abs(b)):
+                if len(rec) != len(want) or not max(abs(x - y) for x, y in zip(rec, want)) <= 1e-12 * max(1.0, abs(a), abs(b)):
                     return f"discretize({a}, {b}, {case['count']}) evaluates the curve at {rec[:3]}…, model linspace {want[:3]}…"
             return None
         if kind == "edge":
@@ -525,13 +548,13 @@ class C16(core.Check):
                 except ValueError:
                     ok = False
             flat = [x for p in pts for x in p]
-            if not ok or len(nums) != len(flat) or any(abs(a - b) > 1e-8 + 1e-9 * sc for a, b in zip(nums, flat)):
+            if not ok or len(nums) != len(flat) or any(not abs(a - b) <= 1e-8 + 1e-9 * sc for a, b in zip(nums, flat)):
                 bad(f"CurveEdge.description:{which}", f"written list {first[:120]!r} is not the point array", first, pts)
             if which in ("splinedata", "polylinedata"):
                 if pts != [[float(x) for x in p] for p in case["points"]]:
                     bad(f"SplineEdge.point_array:{which}", "written points are not the given points", pts)
                 exp = _poly([ends[0], *pts, ends[1]])
-                if abs(impl["length"] - exp) > TOL * sc * 10:
+                if not abs(impl["length"] - exp) <= TOL * sc * 10:
                     bad(f"SplineEdge.length:{which}", f"length {impl['length']}, polyline through vertices and points {exp}")
                 return out
             tol = TOL_MIN * sc * 10
@@ -542,29 +565,34 @@ class C16(core.Check):
                 if i > j:
                     rng_ = rng_[::-1]
                 exp_pts = [[float(x) for x in p] for p in rng_[1:-1]]
-            if len(pts) != len(exp_pts) or any(_dist(p, q) > tol for p, q in zip(pts, exp_pts)):
+            if len(pts) != len(exp_pts) or any(not _dist(p, q) <= tol for p, q in zip(pts, exp_pts)):
                 bad(
                     f"OnCurveEdge.point_array:{which}",
                     "written points are not the curve points between the parameters of the two vertices",
                     pts,
                     exp_pts,
                 )
-            if abs(impl["param_start"] - case["t"][0]) > 1e-5 * max(1.0, abs(case["t"][0])) or abs(
-                impl["param_end"] - case["t"][1]
-            ) > 1e-5 * max(1.0, abs(case["t"][1])):
+            if not (
+                abs(impl["param_start"] - case["t"][0]) <= 1e-5 * max(1.0, abs(case["t"][0]))
+                and abs(impl["param_end"] - case["t"][1]) <= 1e-5 * max(1.0, abs(case["t"][1]))
+            ):
                 bad(f"OnCurveEdge.param:{which}", f"vertex parameters {impl['param_start']}, {impl['param_end']} instead of {case['t']}")
-            if abs(impl["length"] - impl["expected_len"]) > max(TOL_MIN * 10, 1e-5) * max(1.0, impl["expected_len"]):
+            if not abs(impl["length"] - impl["expected_len"]) <= max(TOL_MIN * 10, 1e-5) * max(1.0, impl["expected_len"]):
                 bad(f"OnCurveEdge.length:{which}", f"length {impl['length']}, curve length between the parameters {impl['expected_len']}")
             return out
 
+        for e in impl.get("errors", []):
+            bad(f"{cname}.get_length:raises", e)
+        if impl.get("errors"):
+            return out
         pts = case.get("points")
         sc = _scale(pts) if pts else _scale([case.get("p1", [1]), case.get("p2", [1]), case.get("origin", [1]), [case.get("r", 1)]])
         tol = TOL * sc * 10
         own = _own_linear(pts) if kind == "linear" else None
         for (a, b), o in zip(case["pairs"], impl["pairs"]):
-            if _dist(o["first"], o["pa"]) > tol or _dist(o["last"], o["pb"]) > tol:
+            if not (_dist(o["first"], o["pa"]) <= tol and _dist(o["last"], o["pb"]) <= tol):
                 bad(f"{cname}.discretize:ends", f"discretize({a}, {b}) runs {o['first']} … {o['last']}, curve points {o['pa']}, {o['pb']}")
-            if abs(o["len"] - o["len_rev"]) > tol:
+            if not abs(o["len"] - o["len_rev"]) <= tol:
                 bad(f"{cname}.get_length:order-dependent", f"get_length({a}, {b}) = {o['len']}, get_length({b}, {a}) = {o['len_rev']}")
             if kind == "discrete":
                 i, j = int(min(a, b)), int(max(a, b))
@@ -574,25 +602,25 @@ class C16(core.Check):
                 if o["disc"] != want:
                     bad("DiscreteCurve.discretize:points", f"discretize({a}, {b}) returns points {o['disc']}, expected {want}")
                 exp = _poly([pts[k] for k in want])
-                if abs(o["len"] - exp) > tol:
+                if not abs(o["len"] - exp) <= tol:
                     bad("DiscreteCurve.get_length:polyline", f"get_length({a}, {b}) = {o['len']}, polyline {exp}", o["len"], exp)
             if kind == "linear":
                 exp = abs(b - a) * own[2]
-                if abs(o["len"] - exp) > tol:
+                if not abs(o["len"] - exp) <= tol:
                     bad(
                         "LinearInterpolatedCurve.get_length:polyline",
                         f"get_length({a}, {b}) = {o['len']}, polyline between the parameters {exp}",
                         o["len"],
                         exp,
                     )
-                if _dist(o["pa"], own[1](a)) > tol:
+                if not _dist(o["pa"], own[1](a)) <= tol:
                     bad("LinearInterpolatedCurve.get_point", f"get_point({a}) = {o['pa']}, piecewise-linear point {own[1](a)}")
         for (a, b, c), (l1, l2, l3) in zip(case["triples"], impl["triples"]):
             if kind in ("discrete", "linear"):
-                if abs(l1 + l2 - l3) > tol:
+                if not abs(l1 + l2 - l3) <= tol:
                     bad(f"{cname}.get_length:not-additive", f"{a} <= {b} <= {c}: {l1} + {l2} != {l3}", l1 + l2, l3)
             elif kind == "spline":
-                if abs(l1 + l2 - l3) > tol:
+                if not abs(l1 + l2 - l3) <= tol:
                     bad(
                         "SplineInterpolatedCurve.get_length:not-additive-between-knots",
                         f"{a} <= {b} <= {c}: {l1} + {l2} != {l3}",
@@ -600,17 +628,17 @@ class C16(core.Check):
                         l3,
                     )
             else:
-                if abs(l1 + l2 - l3) > TOL_ANALYTIC * max(l3, 1e-9):
+                if not abs(l1 + l2 - l3) <= TOL_ANALYTIC * max(l3, 1e-9):
                     bad(f"AnalyticCurve.get_length:not-additive:{case['curve']}", f"{a} <= {b} <= {c}: {l1} + {l2} != {l3}", l1 + l2, l3)
         if kind in ("linear", "spline"):
             for i, (p, q) in enumerate(zip(impl["through"], pts)):
-                if _dist(p, q) > tol:
+                if not _dist(p, q) <= tol:
                     bad(f"{cname}.get_point:not-through-defining-point", f"point {i}: {p} instead of {q}")
             l1, l2, l3 = impl["knot_split"]
-            if abs(l1 + l2 - l3) > tol:
+            if not abs(l1 + l2 - l3) <= tol:
                 bad(f"{cname}.get_length:not-additive-at-knot", f"split at knot {case['knot_split']}: {l1} + {l2} != {l3}", l1 + l2, l3)
             exp = _poly(pts)
-            if abs(impl["full"] - exp) > tol:
+            if not abs(impl["full"] - exp) <= tol:
                 bad(f"{cname}.length:polyline", f"length {impl['full']}, polyline through the defining points {exp}", impl["full"], exp)
         queries = case["queries"] if kind != "analytic" else [{"near": True}] * len(impl["queries"])
         for q, o in zip(queries, impl["queries"]):
@@ -618,11 +646,11 @@ class C16(core.Check):
                 d = [_dist(p, q["p"]) for p in pts]
                 if o["t"] != float(d.index(min(d))):
                     bad("DiscreteCurve.get_closest_param", f"query {q['p']}: parameter {o['t']}, closest point is #{d.index(min(d))}")
-            elif q["near"]:
+            elif q["near"] or kind == "linear":
                 lo, hi = impl["bounds"]
                 if not (lo <= o["t"] <= hi):
                     bad(f"{cname}.get_closest_param:out-of-bounds", f"parameter {o['t']} outside {impl['bounds']}")
-                elif o["d"] > o["scan_min"] + TOL_MIN * sc * 10:
+                elif not o["d"] <= o["scan_min"] + TOL_MIN * sc * 10:
                     bad(
                         f"{cname}.get_closest_param:not-closest",
                         f"returned parameter {o['t']} is {o['d']} away, a {N_SCAN}-point scan finds {o['scan_min']}",
